@@ -382,6 +382,7 @@ fn check_c01(case: &Case, out: &Outcome, h: &Hist, _g: &mut Group) -> Vec<Violat
     let mut v = oracle::common(case, out, h);
     let ag = agenda::build(case, h);
     v.extend(time::chronology(case, h, &ag));
+    v.extend(time::reads(case, h, &ag));
     v
 }
 fn nt_time(_c: &Case, _out: &Outcome, h: &Hist) -> bool {
@@ -1257,11 +1258,35 @@ fn nt_c13(_case: &Case, out: &Outcome, _h: &Hist) -> bool {
 }
 
 fn gen_c15(rng: &mut Rng, thorough: bool) -> Case {
+    // One case out of five is a whole simulation whose handlers and auxiliary threads read the
+    // time while it is stepped (rule set `time::reads`); the others exercise the time cell alone.
+    if rng.pct(20) {
+        let o = TimeOpts { aux_threads: 2, invalid_pct: 3, max_cmds: if thorough { 12 } else { 9 }, ..Default::default() };
+        let mut c = gen::gen_time(rng, &o);
+        for n in c.nodes.iter_mut() {
+            for ops in n.on.iter_mut() {
+                if rng.pct(60) {
+                    let pos = rng.usize(ops.len() + 1);
+                    ops.insert(pos, Op::ReadTime);
+                }
+            }
+        }
+        for a in c.aux.iter_mut() {
+            for _ in 0..rng.range(1, 4) {
+                let pos = rng.usize(a.len() + 1);
+                a.insert(pos, AuxCmd::ReadTime);
+            }
+        }
+        c.profile = "time-reads".into();
+        return c;
+    }
     let writes = rng.range(1, if thorough { 10 } else { 8 }) as u8;
     let nr = rng.range(1, 3) as usize;
     let readers: Vec<Vec<bool>> = (0..nr).map(|_| (0..rng.range(1, 8)).map(|_| rng.pct(55)).collect()).collect();
     let step = *rng.pick(&[(1u32, 1u32), (1, 999_999_937), (3, 400_000_000), (1000, 7)]);
-    comp_case(rng, "timecell", Comp::Time(TimeCase { writes, readers, step }))
+    // a third of the cases lie before the epoch (negative seconds, non-zero nanoseconds), some cross it
+    let base = *rng.pick(&[1_000i64, 1_000, 1_000, 0, -3, -5_000, -1_000_000]);
+    comp_case(rng, "timecell", Comp::Time(TimeCase { writes, readers, step, base }))
 }
 fn check_c15(case: &Case, out: &Outcome, h: &Hist, _g: &mut Group) -> Vec<Violation> {
     let mut v = oracle::common(case, out, h);
@@ -1270,9 +1295,17 @@ fn check_c15(case: &Case, out: &Outcome, h: &Hist, _g: &mut Group) -> Vec<Violat
             v.extend(ocomp::time_rules(t, &out.log));
         }
     }
+    if case.comp.is_none() {
+        let ag = agenda::build(case, h);
+        v.extend(time::reads(case, h, &ag));
+    }
     v
 }
-fn nt_c15(_case: &Case, out: &Outcome, _h: &Hist) -> bool {
+fn nt_c15(case: &Case, out: &Outcome, h: &Hist) -> bool {
+    if case.comp.is_none() {
+        // whole simulation: a thread other than the simulation's read the time at least once
+        return h.time_reads.iter().any(|(_, a, _)| matches!(a, crate::ctx::Actor::Aux(_)));
+    }
     // a read raced with a write: a retry, a failed try_read, or a value newer than the one published to the reader
     probe(out, Probe::SeqlockRetry) > 0 || out.log.iter().any(|e| matches!(e, Ev::Comp(CompEv::TimeRead { idx, published, .. }) if *idx == -2 || *idx > *published as i64))
 }
@@ -1312,7 +1345,7 @@ pub static PROPS: &[PropSpec] = &[
         schedules_thorough: 64,
         cases_quick: 180_000,
         cases_thorough: 2_160_000,
-        rule: "a case is one writer storing 1-8(10) strictly increasing times (seconds and nanoseconds both change) into the real time cell and publishing the index with release/acquire, and 1-3 reader threads doing 1-8 read()/try_read() calls each; distinct = distinct (decision sequence, history); non-trivial = a read raced with a write (seqlock retry, failed try_read, or a value newer than the published one)",
+        rule: "80 % of the cases: one writer storing 1-8(10) strictly increasing times (seconds and nanoseconds both change; a third of the series lie before the epoch or cross it) into the real time cell and publishing the index with release/acquire, and 1-3 reader threads doing 1-8 read()/try_read() calls each; 20 %: a whole simulation stepped while its handlers (Context::time) and two auxiliary threads (Scheduler::time) read the time, judged against the trace of time writes; distinct = distinct (decision sequence, history); non-trivial = a read raced with a write (seqlock retry, failed try_read, or a value newer than the published one)",
     },
     PropSpec {
         id: "C14",
